@@ -20,6 +20,8 @@ type Check struct {
 	ThoroughBudget time.Duration
 	Workers        int // 0 = all cores
 	ProcsPerWorker int // GOMAXPROCS of each worker (default 1)
+	Resumable      bool          // cases are numbered (Ctx.NextCase): after a crash or hang the worker is restarted just past the announced case
+	StallLimit     time.Duration // resumable checks: no progress of the case counter for this long = hang
 }
 
 var registry = map[string]*Check{}
@@ -30,6 +32,9 @@ func Register(c *Check) {
 	}
 	if c.ThoroughBudget == 0 {
 		c.ThoroughBudget = 15 * time.Minute
+	}
+	if c.StallLimit == 0 {
+		c.StallLimit = 60 * time.Second
 	}
 	registry[c.ID] = c
 }
